@@ -454,6 +454,55 @@ pub fn c10(a: &Args) {
             }
         }
     }
+    // (4c) wide lookalikes: characters above U+00FF whose LOW BYTE is an ASCII digit / hex digit / letter, in place of the payload
+    //      characters of control strings (hex macro bodies, repeat counts, DECFRA codes, sixel data), fed as characters (the way a
+    //      UTF-8 file or a Unicode-aware client delivers them), then the macro is invoked: a parser that classifies by `c as u8`
+    //      and computes with the whole code point builds values outside the scalar range
+    {
+        use icy_engine::{ansi, BufferParser, Caret};
+        let bases: [u32; 6] = [0x100, 0xD00, 0x800, 0x11000, 0x10FF00, 0xFF00];
+        let templates: [(&str, &str); 5] = [("hexmacro", "\x1bP1;0;1!z4142\x1b\\\x1b[1*z"), ("hexrepeat", "\x1bP1;0;1!z!3;41;\x1b\\\x1b[1*z"),
+            ("decfra", "\x1b[65;1;1;2;2$x"), ("sixel", "\x1bPq#1!3~-~\x1b\\"), ("rep", "A\x1b[3b")];
+        for (tn, t) in templates {
+            let chars: Vec<char> = t.chars().collect();
+            for (pos, c0) in chars.iter().enumerate() {
+                if !c0.is_ascii_alphanumeric() { continue; }
+                for (bi, base) in bases.iter().enumerate() {
+                    // one position, and that position together with the next alphanumeric one
+                    for two in [false, true] {
+                        let mut cs = chars.clone();
+                        let Some(w) = char::from_u32(base + *c0 as u32) else { continue };
+                        cs[pos] = w;
+                        if two {
+                            if let Some(p2) = (pos + 1..cs.len()).find(|i| cs[*i].is_ascii_alphanumeric()) {
+                                if let Some(w2) = char::from_u32(bases[(bi + 1) % bases.len()] + cs[p2] as u32) { cs[p2] = w2; }
+                            } else { continue; }
+                        }
+                        let what = format!("{tn}:pos={pos}:base={base:#x}:two={}", two as u8);
+                        if !u.begin(&mut out, "wide", &what) { continue; }
+                        let r = guard(|| {
+                            let mut buf = Buffer::create((20, 6));
+                            buf.is_terminal_buffer = true;
+                            let mut caret = Caret::default();
+                            let mut parser = ansi::Parser::default();
+                            for c in &cs { let _ = parser.print_char(&mut buf, 0, &mut caret, *c); }
+                            let mut codes = layer_codes(&buf.layers[0]);
+                            codes.sort_unstable();
+                            codes.dedup();
+                            (codes, parser.verif_macro_bytes())
+                        });
+                        match r {
+                            Ok((codes, ms)) => {
+                                for (id, body) in ms { out.ev(&json!({"ev":"str","src":"wide","what":format!("{what}:id={id}"),"bytes":tail_at_boundary(&body, 96),"valid":std::str::from_utf8(&body).is_ok() as u8})); }
+                                out.ev(&json!({"ev":"cells","src":"wide","what":what,"r":"ok","codes":codes}));
+                            }
+                            Err(p) => out.ev(&json!({"ev":"cells","src":"wide","what":what,"r":"panic","site":panic_site(&p),"codes":[]})),
+                        }
+                    }
+                }
+            }
+        }
+    }
     out.flush();
     let _ = std::fs::write(&u.progress, json!({"k": u.k, "done": true}).to_string());
     eprintln!("c10: {} events", out.n);
